@@ -1,8 +1,16 @@
 import BronVerif.Drive.Common
 import BronVerif.Drive.C03
 import BronVerif.Model.SignAlg
+import BronVerif.Model.Hash.Sha2
+import BronVerif.Model.Hash.Keccak
+import BronVerif.Model.Hash.Blake2b
 /-! Driver handlers for C01 (threshold signing): independent verification of the emitted signature in
-model curve arithmetic, with the message digest / challenge scalar as an explicit argument. -/
+model curve arithmetic.  The message digest (ECDSA) and the Fiat–Shamir challenge (BIP-340 and the
+configurable Schnorr scheme) are recomputed from the message itself with the hash models of
+`Model/Hash`; the values the implementation printed are only compared (a difference there is a broken
+tie, `DIFF`, because the property speaks about verification of the message, which the driver decides
+with its own value).  The Mina challenge (Poseidon) and the BLS hash-to-curve point are taken from the
+line. -/
 namespace BronVerif.Drive.C01
 open BronVerif BronVerif.Drive BronVerif.LinAlg BronVerif.SignAlg
 
@@ -14,6 +22,71 @@ def yIsOdd (C : Curves.Params) (P : GPt C) : Bool :=
   | _ => false
 
 def gneg (C : Curves.Params) (P : GPt C) : GPt C := ⟨Curves.neg C P.pt⟩
+
+/-! ### hashes, digest-to-scalar, challenges -/
+
+def hashByName? : String → Option (ByteArray → ByteArray)
+  | "sha256" => some Hash.sha256
+  | "sha512" => some Hash.sha512
+  | "sha3-256" => some Hash.sha3_256
+  | "blake2b-256" => some Hash.blake2b256
+  | _ => none
+
+/-- `ecdsa.DigestToScalar` = FIPS 186-5 bits2int followed by reduction: the leftmost
+`min(len, ⌈bits/8⌉)` bytes, right-shifted to `bits` bits, mod `n` -/
+def digestToScalar (n : Nat) [NeZero n] (digest : ByteArray) : Fp n :=
+  let bits := n.log2 + 1
+  let size := (bits + 7) / 8
+  if digest.size ≥ size then
+    let v := bytesToNatBE (digest.extract 0 size)
+    Fp.ofNat n (v >>> (size * 8 - bits))
+  else Fp.ofNat n (bytesToNatBE digest)
+
+/-- canonical encodings hashed by the configurable Schnorr challenge (`Point.Bytes()`): SEC1
+compressed for k256/p256, RFC 8032 for ed25519; other curves: not modelled -/
+def encodePoint (C : Curves.Params) (P : GPt C) : Option ByteArray :=
+  match P.pt.coords with
+  | some ([x], [y]) =>
+    if Curves.isZero C P.pt then none else
+    if C.name == "k256" || C.name == "p256" then
+      some (ByteArray.mk #[if y % 2 == 0 then 2 else 3] ++ natToBytesBE x 32)
+    else if C.name == "ed25519" then
+      some (natToBytesLE (y + (x % 2) * 2 ^ 255) 32)
+    else none
+  | _ => none
+
+/-- `MakeGenericChallenge`: `H(R ‖ P ‖ m)`, digest byte-reversed when `le`, reduced mod `n` -/
+def vanillaChallenge (C : Curves.Params) {q : Nat} [NeZero q] (H : ByteArray → ByteArray) (le : Bool)
+    (R pk : GPt C) (msg : ByteArray) : Option (Fp q) :=
+  match encodePoint C R, encodePoint C pk with
+  | some rb, some pb =>
+    let d := H (rb ++ pb ++ msg)
+    some (Fp.ofNat q (if le then bytesToNatLE d else bytesToNatBE d))
+  | _, _ => none
+
+/-- BIP-340: tagged SHA-256 of `x(R) ‖ x(P) ‖ m`, reduced mod `n` -/
+def bip340Challenge (C : Curves.Params) {q : Nat} [NeZero q] (R pk : GPt C) (msg : ByteArray) : Option (Fp q) :=
+  match R.pt.coords, pk.pt.coords with
+  | some ([rx], _), some ([px], _) =>
+    let tag := Hash.sha256 "BIP0340/challenge".toUTF8
+    some (Fp.ofNat q (bytesToNatBE (Hash.sha256 (tag ++ tag ++ natToBytesBE rx 32 ++ natToBytesBE px 32 ++ msg))))
+  | _, _ => none
+
+inductive Flavour where
+  | bip340
+  | mina
+  | vanilla (hash : String) (neg le : Bool)
+
+def parseFlavour (s : String) : Option Flavour :=
+  if s == "bip340" then some .bip340 else
+  if s.startsWith "mina-" then some .mina else
+  match s.splitOn ":" with
+  | ["vanilla", h, n, l] =>
+    if (n == "0" || n == "1") && (l == "0" || l == "1") then some (.vanilla h (n == "1") (l == "1")) else none
+  | _ => none
+
+/-! ### handlers with the digest scalar / challenge as an explicit argument (used by the C06 driver,
+whose sign-after-epoch lines carry only the scalar) -/
 
 def handleEcdsa (C : Curves.Params) (pkS mS rS sS noncesS pksS : String) : Verdict :=
   withPrime C.n (.unsupported "n=0") fun q =>
@@ -54,6 +127,106 @@ def handleSchnorr (C : Curves.Params) (variant pkS eS RS sS noncesS : String) : 
     | v => .unsupported ("variant " ++ v)
   | _, _, _, _, _ => .unsupported "parse"
 
+/-! ### handlers that recompute the digest / challenge from the message -/
+
+def handleEcdsaMsg (C : Curves.Params) (hash pkS msgS digestS mS rS sS noncesS pksS : String) : Verdict :=
+  withPrime C.n (.unsupported "n=0") fun q =>
+  match pt C pkS, hexToBytes? msgS, hexToBytes? digestS, hexToNat? mS, hexToNat? rS, hexToNat? sS,
+        C03.parsePts C noncesS, C03.parsePts C pksS with
+  | some pk, some msg, some digLine, some mLine, some r, some s, some nonces, some pkShares =>
+    match hashByName? hash with
+    | none => .unsupported ("hash " ++ hash)
+    | some H =>
+    let g := GPt.gen C
+    let dig := H msg
+    -- the digest scalar of the MESSAGE, computed by the model alone
+    let mF : Fp q := digestToScalar q dig
+    let rF : Fp q := Fp.ofNat q r
+    let sF : Fp q := Fp.ofNat q s
+    if r ≥ q ∨ s ≥ q then .bad "ecdsa-scalar-range" "r or s is not a canonical scalar" else
+    if !(ecdsaVerify g pk (GPt.xScalar C (q := q)) mF rF sF) then
+      .bad "ecdsa-invalid" ("independent verification of (r,s) against pk and the model digest of the message fails; model m=" ++ mF.toHex ++ " line m=" ++ natToHex mLine) else
+    if !nonces.isEmpty && GPt.xScalar C (q := q) (gsum nonces) != some rF then
+      .bad "ecdsa-r-not-x-of-sum-R" "r differs from x(Σ Rᵢ) mod n of the broadcast nonce points" else
+    if !pkShares.isEmpty && decide (gsum pkShares ≠ pk) then
+      .bad "ecdsa-pkshares-sum" "broadcast additive public key shares do not sum to pk" else
+    if dig.data != digLine.data then .diff ("digest=" ++ bytesToHex dig) else
+    if mF.val != mLine then .diff ("m=" ++ mF.toHex) else
+    -- both aggregation paths (dkls23.Aggregate, lindell17 Round5) return the low-s form; the property does
+    -- not demand it (`ecdsa_normalise_valid`: both forms verify), so a high s is a broken tie, not a violation
+    if 2 * s > q then .diff ("s=" ++ (-sF).toHex ++ " (low-s form)") else .ok
+  | _, _, _, _, _, _, _, _ => .unsupported "parse"
+
+def handleSchnorrMsg (C : Curves.Params) (variant pkS msgS eS RS sS noncesS pRsS pSsS : String) : Verdict :=
+  withPrime C.n (.unsupported "n=0") fun q =>
+  match parseFlavour variant, pt C pkS, hexToBytes? msgS, hexToNat? eS, pt C RS, hexToNat? sS,
+        C03.parsePts C noncesS, C03.parsePts C pRsS, parseNatList? pSsS with
+  | some fl, some pk, some msg, some eLine, some R, some s, some nonces, some pRs, some pSs =>
+    let g := GPt.gen C
+    let sF : Fp q := Fp.ofNat q s
+    let eLineF : Fp q := Fp.ofNat q eLine
+    if s ≥ q then .bad "schnorr-scalar-range" "s is not a canonical scalar" else
+    if pSs.any (· ≥ q) then .bad "schnorr-scalar-range" "a partial s is not a canonical scalar" else
+    let sumR := gsum nonces
+    -- the challenge of the MESSAGE, computed by the model alone where the hash is modelled
+    let eModel : Option (Option (Fp q)) :=
+      match fl with
+      | .bip340 => some (bip340Challenge C R pk msg)
+      | .mina => some none
+      | .vanilla h _ le =>
+        match hashByName? h with
+        | none => none
+        | some H => some (vanillaChallenge C H le R pk msg)
+    match eModel with
+    | none => .unsupported ("hash of " ++ variant)
+    | some eM =>
+    let eF : Fp q := eM.getD eLineF
+    let partialChecks : Verdict :=
+      if pRs.length != pSs.length then .unsupported "partials" else
+      if !pRs.isEmpty && decide (gsum pRs ≠ R) then
+        .bad "schnorr-partial-R-sum" "the nonce commitments of the partial signatures do not sum to R" else
+      if !pSs.isEmpty && decide ((fpList (p := q) pSs).foldl (· + ·) (0 : Fp q) ≠ sF) then
+        .bad "schnorr-partial-s-sum" "the partial responses do not sum to s" else
+      if eF != eLineF then .diff ("e=" ++ eF.toHex) else .ok
+    match fl with
+    | .vanilla _ neg _ =>
+      if !(schnorrVerify g pk R eF sF neg) then
+        .bad "schnorr-invalid" (if neg then "s•G + e•pk ≠ R" else "s•G ≠ R + e•pk") else
+      if !nonces.isEmpty && decide (sumR ≠ R) then .bad "schnorr-R-not-sum" "R differs from Σ Rᵢ" else partialChecks
+    | .bip340 =>
+      let pk' := if yIsOdd C pk then gneg C pk else pk
+      if yIsOdd C R then .bad "bip340-R-odd" "R has odd y" else
+      if !(schnorrVerify g pk' R eF sF false) then .bad "schnorr-invalid" "s•G ≠ R + e•lift_x(pk)" else
+      if !nonces.isEmpty && decide (sumR ≠ R) && decide (gneg C sumR ≠ R) then
+        .bad "schnorr-R-not-sum" "R differs from ±Σ Rᵢ" else partialChecks
+    | .mina =>
+      if yIsOdd C R then .bad "mina-R-odd" "R has odd y" else
+      if !(schnorrVerify g pk R eF sF false) then .bad "schnorr-invalid" "s•G ≠ R + e•pk" else
+      if !nonces.isEmpty && decide (sumR ≠ R) && decide (gneg C sumR ≠ R) then
+        .bad "schnorr-R-not-sum" "R differs from ±Σ Rᵢ" else partialChecks
+  | _, _, _, _, _, _, _, _, _ => .unsupported "parse"
+
+/-- Boldyreva: with `sk` the secret reconstructed from all shards, `sk•G = pk` and `σ = sk•H(m)` (in
+the other source group) is equivalent to the pairing equation `e(pk, H(m)) = e(G, σ)` by bilinearity and
+non-degeneracy; likewise for the proof of possession. -/
+def handleBls (Ck Cs : Curves.Params) (skS pkS hmS sigS hpS popS : String) : Verdict :=
+  withPrime Ck.n (.unsupported "n=0") fun q =>
+  if Cs.n != Ck.n then .unsupported "group orders differ" else
+  match hexToNat? skS, pt Ck pkS, pt Cs hmS, pt Cs sigS with
+  | some sk, some pk, some hm, some sig =>
+    let skF : Fp q := Fp.ofNat q sk
+    if sk ≥ q ∨ sk = 0 then .bad "bls-secret-range" "reconstructed secret is not a canonical non-zero scalar" else
+    if decide (skF • GPt.gen Ck ≠ pk) then
+      .bad "bls-secret-pk-mismatch" "the secret reconstructed from all shards is not the discrete logarithm of pk" else
+    if Curves.isZero Cs hm.pt then .diff "H(m)=inf" else
+    if decide (skF • hm ≠ sig) then .bad "bls-invalid" "σ ≠ sk•H(m): the pairing equation e(pk,H(m)) = e(G,σ) fails" else
+    if popS == "-" && hpS == "-" then .ok else
+    match pt Cs hpS, pt Cs popS with
+    | some hp, some pop =>
+      if decide (skF • hp ≠ pop) then .bad "bls-pop-invalid" "proof of possession ≠ sk•H_pop(pk)" else .ok
+    | _, _ => .unsupported "parse pop"
+  | _, _, _, _ => .unsupported "parse"
+
 def handleAddConv (C : Curves.Params) (rs cs labelsS ms vS pkS qS : String) : Verdict :=
   withPrime C.n (.unsupported "n=0") fun q =>
   match rs.toNat?, cs.toNat?, parseDecList? labelsS, C03.parsePts C vS, pt C pkS, parseDecList? qS with
@@ -72,14 +245,18 @@ def handleAddConv (C : Curves.Params) (rs cs labelsS ms vS pkS qS : String) : Ve
 def handle (op : String) (args : List String) (rhs : String) : Verdict :=
   if rhs != "ok" then .unsupported ("rhs " ++ rhs) else
   match op, args with
-  | "ecdsa", [_proto, curve, pk, _msg, _digest, m, r, s, nonces, pks] =>
+  | "ecdsa", [_proto, curve, hash, pk, msg, digest, m, r, s, nonces, pks] =>
     match Curves.byName? curve with
     | none => .unsupported ("curve " ++ curve)
-    | some C => handleEcdsa C pk m r s nonces pks
-  | "schnorr", [variant, curve, pk, _msg, e, R, s, nonces] =>
+    | some C => handleEcdsaMsg C hash pk msg digest m r s nonces pks
+  | "schnorr", [variant, curve, pk, msg, e, R, s, nonces, pRs, pSs] =>
     match Curves.byName? curve with
     | none => .unsupported ("curve " ++ curve)
-    | some C => handleSchnorr C variant pk e R s nonces
+    | some C => handleSchnorrMsg C variant pk msg e R s nonces pRs pSs
+  | "bls", [kc, sc, _alg, sk, pk, hm, sig, hp, pop] =>
+    match Curves.byName? kc, Curves.byName? sc with
+    | some Ck, some Cs => handleBls Ck Cs sk pk hm sig hp pop
+    | _, _ => .unsupported ("curves " ++ kc ++ " " ++ sc)
   | "addconv", [curve, rs, cs, labels, ms, v, pk, q] =>
     match Curves.byName? curve with
     | none => .unsupported ("curve " ++ curve)
